@@ -189,6 +189,14 @@ CLAIMED = {
             "preface bytes cut at every position; data_to_send with solver-enumerated amounts",
             "Same error (type, code) or same events and same emitted frames for all body lengths "
             "0..2^24-1 and all cut positions; read amounts partition the output buffer.", "7/C21"),
+    'C01': ("two real endpoints connected frame-by-frame: native BFS catalogue of quiescent pairs, "
+            "then one symbolic call on either side (or a raising call followed by a peer call, or "
+            "one call on each side crossing in flight) delivered to the peer and its reactions "
+            "delivered back; plus pair harnesses with a symbolic INITIAL_WINDOW_SIZE / DATA "
+            "length and with a fully symbolic header field through both pipelines",
+            "Every successful send is accepted by the peer and reported with the events and "
+            "fields the call specifies; raising calls contribute nothing; crossings do not break "
+            "the connection.  Chunking is delegated to C21, header content to C13-C15.", "7/C01"),
 }
 
 NOT_YET = {}
